@@ -145,7 +145,10 @@ pub fn exec_play(case: &J, acc: &mut Acc) -> Result<(), Fail> {
                     // message text is not part of the comparison (C04 speaks of playing like a
                     // fresh story; texts of diagnostics may list names in any order)
                     t.iter()
-                        .filter(|o| !matches!(o, Obs::Notify { .. }))
+                        // warnings raised by the global declarations are delivered during
+                        // construction-then-first-continue on a fresh story but during the
+                        // reset_state call on a reset one: not a difference in play
+                        .filter(|o| !matches!(o, Obs::Notify { .. } | Obs::Handler { warning: true, .. }))
                         .map(|o| o.without_msg())
                         .collect()
                 };
@@ -156,7 +159,7 @@ pub fn exec_play(case: &J, acc: &mut Acc) -> Result<(), Fail> {
                         case.clone(),
                     ));
                 }
-                if let Some(d) = reset_view.without_msgs().diff(&fv.without_msgs()) {
+                if let Some(d) = reset_view.without_diagnostics().diff(&fv.without_diagnostics()) {
                     return Err(Fail::violation(
                         "reset-after-error-differs",
                         format!("after an error and reset_state the final view differs from a fresh story: {d}"),
@@ -425,7 +428,7 @@ pub fn run(env: &Env) -> i32 {
     // leg 1: generated fault-prone programs x histories x {handler, no handler}
     let prof = profile();
     let hp = HistProfile::everything();
-    let n1 = env.cases(1600, 60000);
+    let n1 = env.cases(12000, 400000);
     let r = run_cases(
         env,
         1,
@@ -460,7 +463,7 @@ pub fn run(env: &Env) -> i32 {
     rep.absorb(r);
 
     // leg 2: wrap-around model for + - * neg
-    let n2 = env.cases(300, 20000);
+    let n2 = env.cases(3000, 100000);
     let r = run_cases(
         env,
         2,
@@ -502,7 +505,7 @@ pub fn run(env: &Env) -> i32 {
         .filter(|(_, s)| !s.contains("INCLUDE"))
         .collect();
     if !sources.is_empty() {
-        let n3 = env.cases(600, 30000);
+        let n3 = env.cases(5000, 150000);
         let nsrc = sources.len();
         let r = run_cases(
             env,
